@@ -876,6 +876,31 @@ def simplify_locals(fi: FunctionInfo, body: list[ast.stmt], log: list[str]) -> b
                 multi = len(stores) != 1
                 if multi and not _each_store_feeds_next(body, name, blocks):
                     continue  # several definitions that are not all "define, use once in the very next statement"
+                # (f) a bound method kept in a local and called from the function's closures (`future_done = future.done` ...
+                #     `if future_done():` inside a callback): called through the object again - the receiver is held in a local
+                #     of its own when it is not a plain name
+                if not multi and isinstance(s1.value, ast.Attribute) and loads and block is body:
+                    all_calls = [c for st in body for c in ast.walk(st) if isinstance(c, ast.Call) and isinstance(c.func, ast.Name) and c.func.id == name]
+                    in_closure = any(isinstance(n, (ast.FunctionDef, ast.AsyncFunctionDef, ast.Lambda)) and any(isinstance(x, ast.Name) and x.id == name for x in ast.walk(n)) for st in body for n in ast.walk(st))
+                    recv = s1.value.value
+                    if in_closure and len(all_calls) == len(loads) and not any(isinstance(x, (ast.Await, ast.Yield, ast.YieldFrom)) for x in ast.walk(recv)):
+                        recv_name = recv.id if isinstance(recv, ast.Name) else f"{name}__recv"
+                        # the receiver's name must mean the same object wherever the alias is called
+                        shadowed = any(isinstance(n, (ast.FunctionDef, ast.AsyncFunctionDef, ast.Lambda)) and any(isinstance(x, ast.Name) and x.id == name for x in ast.walk(n)) and (recv_name in {a.arg for a in n.args.posonlyargs + n.args.args + n.args.kwonlyargs} or any(isinstance(x, ast.Name) and x.id == recv_name and isinstance(x.ctx, ast.Store) for x in ast.walk(n))) for st in body for n in ast.walk(st))
+                        rebound = len(_name_uses(body, recv_name)[1]) > (0 if recv_name in params else 1) if isinstance(recv, ast.Name) else False
+                        if not shadowed and not rebound:
+                            attr_ = s1.value.attr
+                            for c in all_calls:
+                                c.func = ast.copy_location(ast.Attribute(value=ast.Name(id=recv_name, ctx=ast.Load()), attr=attr_, ctx=ast.Load()), c.func)
+                            if isinstance(recv, ast.Name):
+                                block[i] = ast.copy_location(ast.Pass(), s1)
+                            else:
+                                block[i] = ast.copy_location(ast.Assign(targets=[ast.Name(id=recv_name, ctx=ast.Store())], value=recv), s1)
+                            for st in body:
+                                ast.fix_missing_locations(st)
+                            log.append(f"{fi.short}: bound method `{name}` called through its receiver again")
+                            changed = again = True
+                            break
                 # closures reading the name keep it alive
                 if any(isinstance(n, (ast.FunctionDef, ast.AsyncFunctionDef, ast.Lambda)) and any(isinstance(x, ast.Name) and x.id == name for x in ast.walk(n)) for st in body for n in ast.walk(st)):
                     continue
@@ -1411,5 +1436,159 @@ def wrapper_ctor_param_renames(prog: Program) -> list[str]:
                         k.arg = ren[k.arg]
             for p_, q_ in ren.items():
                 log.append(f"{mod.name}: constructor parameter {cname}.__init__({p_}) analysed as `{q_}` (what {pub_name}() passes into it)")
+    return log
+
+
+# ---------------------------------------------------------------------------------------------- conversions that return their argument
+def strip_identity_conversions(prog: Program) -> list[str]:
+    """`tuple(x)` of an exact tuple, `bool(x)` of an exact bool, `str(x)` of an exact str return x itself.  Where the
+    argument is syntactically such a value - the function's own `*args` parameter (never re-bound), a tuple display, a
+    comparison / `not` / `isinstance(...)`, an f-string or string constant - the call is dropped before the rules look."""
+    log: list[str] = []
+    for mod in prog.modules.values():
+        count = 0
+        for fn in [n for n in ast.walk(mod.tree) if isinstance(n, (ast.FunctionDef, ast.AsyncFunctionDef))]:
+            va = fn.args.vararg.arg if fn.args.vararg else None
+            rebound = {n.id for n in ast.walk(fn) if isinstance(n, ast.Name) and isinstance(n.ctx, (ast.Store, ast.Del))}
+            nested_params = {a.arg for sub in ast.walk(fn) if isinstance(sub, (ast.FunctionDef, ast.AsyncFunctionDef, ast.Lambda)) and sub is not fn for a in (sub.args.posonlyargs + sub.args.args + sub.args.kwonlyargs + ([sub.args.vararg] if sub.args.vararg else []) + ([sub.args.kwarg] if sub.args.kwarg else []))}
+
+            tuple_params = {a.arg for a in fn.args.posonlyargs + fn.args.args + fn.args.kwonlyargs if a.annotation is not None and ast.unparse(a.annotation).startswith("tuple[")}
+
+            def exact(e: ast.AST, kind: str) -> bool:
+                if kind == "tuple":
+                    if isinstance(e, ast.Name) and e.id in tuple_params and e.id not in rebound and e.id not in nested_params:
+                        return True  # declared a tuple: the conversion is an element-preserving (for exact tuples: identical) copy
+                    return isinstance(e, ast.Tuple) or (isinstance(e, ast.Name) and e.id == va and va not in rebound and va not in nested_params)
+                if kind == "bool":
+                    if isinstance(e, ast.Compare):
+                        return all(isinstance(o, (ast.Is, ast.IsNot, ast.In, ast.NotIn)) for o in e.ops) or all(isinstance(x, ast.Call) and isinstance(x.func, ast.Name) and x.func.id == "len" for x in [e.left, *e.comparators] if not isinstance(x, ast.Constant))
+                    if isinstance(e, ast.UnaryOp) and isinstance(e.op, ast.Not):
+                        return True
+                    return isinstance(e, ast.Call) and isinstance(e.func, ast.Name) and e.func.id in ("isinstance", "issubclass", "callable", "bool", "all", "any")
+                if kind == "str":
+                    return isinstance(e, ast.JoinedStr) or (isinstance(e, ast.Constant) and isinstance(e.value, str))
+                return False
+
+            class T(ast.NodeTransformer):
+                def visit_FunctionDef(self, n):  # noqa: N802 - nested functions are visited on their own
+                    return n if n is not fn else self.generic_visit(n)
+
+                visit_AsyncFunctionDef = visit_FunctionDef
+
+                def visit_Call(self, c: ast.Call):  # noqa: N802
+                    nonlocal count
+                    self.generic_visit(c)
+                    if isinstance(c.func, ast.Name) and c.func.id in ("tuple", "bool", "str") and len(c.args) == 1 and not c.keywords and not isinstance(c.args[0], ast.Starred) and exact(c.args[0], c.func.id):
+                        count += 1
+                        return c.args[0]
+                    return c
+
+            T().visit(fn)
+        if count:
+            log.append(f"{mod.name}: {count} conversion(s) of a value that already has the type dropped (tuple(*args) / bool(<comparison>) / str(<f-string>))")
+    return log
+
+
+# ---------------------------------------------------------------------------------------------- handlers that only re-raise
+def drop_reraise_only_handlers(prog: Program) -> list[str]:
+    """`try: BODY except X: raise` (every handler of the try is a bare `raise`, nothing else) is BODY: the same exception
+    object propagates either way.  With a `finally` the try/finally remains.  (A re-raising handler in front of a
+    *catching* one - `except CancelledError: raise / except BaseException: pass` - decides which exceptions the second one
+    sees and is left alone.)"""
+    log: list[str] = []
+
+    def only_reraise(h: ast.ExceptHandler) -> bool:
+        body = [x for x in h.body if not (isinstance(x, ast.Expr) and isinstance(x.value, ast.Constant))]
+        return len(body) == 1 and isinstance(body[0], ast.Raise) and body[0].exc is None and body[0].cause is None
+
+    for mod in prog.modules.values():
+        count = 0
+
+        class T(ast.NodeTransformer):
+            def _block(self, stmts: list[ast.stmt]) -> list[ast.stmt]:
+                nonlocal count
+                out: list[ast.stmt] = []
+                for st in stmts:
+                    st = self.visit(st)
+                    if isinstance(st, ast.Try) and st.handlers and all(only_reraise(h) for h in st.handlers):
+                        count += 1
+                        if st.finalbody:
+                            st.body = st.body + st.orelse
+                            st.handlers, st.orelse = [], []
+                            out.append(st)
+                        else:
+                            out.extend(st.body + st.orelse)
+                    else:
+                        out.append(st)
+                return out
+
+            def generic_visit(self, node):
+                for field in ("body", "orelse", "finalbody"):
+                    sub = getattr(node, field, None)
+                    if isinstance(sub, list) and sub and isinstance(sub[0], ast.stmt):
+                        setattr(node, field, self._block(sub))
+                if isinstance(node, ast.Try):
+                    for h in node.handlers:
+                        h.body = self._block(h.body)
+                if isinstance(node, ast.Match):
+                    for c in node.cases:
+                        c.body = self._block(c.body)
+                return node
+
+        T().visit(mod.tree)
+        if count:
+            ast.fix_missing_locations(mod.tree)
+            log.append(f"{mod.name}: {count} try statement(s) whose handlers only re-raise reduced to their body")
+    return log
+
+
+def strip_typed_conversions(prog: Program) -> list[str]:
+    """`float(x)` / `str(x)` / `int(x)` / `bool(x)` where the resolved type of x (annotations, `Future[float].result()`, str
+    methods, f-strings) is exactly that builtin type: the conversion returns x itself."""
+    log: list[str] = []
+    for mod in prog.modules.values():
+        count = 0
+        for fi in [f for f in prog.functions.values() if f.module is mod]:
+
+            class T(ast.NodeTransformer):
+                def visit_FunctionDef(self, n, fi=fi):  # noqa: N802
+                    return n if n is not fi.node else self.generic_visit(n)
+
+                visit_AsyncFunctionDef = visit_FunctionDef
+
+                def visit_Call(self, c: ast.Call, fi=fi):  # noqa: N802
+                    nonlocal count
+                    self.generic_visit(c)
+                    if isinstance(c.func, ast.Name) and c.func.id in ("float", "str", "int", "bool") and len(c.args) == 1 and not c.keywords and not isinstance(c.args[0], ast.Starred):
+                        t = prog.expr_type(fi, c.args[0])
+                        if t is not None and not t.is_class and t.name == "builtins." + c.func.id:
+                            count += 1
+                            return c.args[0]
+                    return c
+
+            T().visit(fi.node)
+
+            # `<mapping>.pop(key, <default>)` as a statement (result unused) removes the key: read as `del <mapping>[key]`
+            # (the forms differ only for an absent key, where `del` raises - the rules judge the removal of a present key)
+            class P(ast.NodeTransformer):
+                def visit_FunctionDef(self, n, fi=fi):  # noqa: N802
+                    return n if n is not fi.node else self.generic_visit(n)
+
+                visit_AsyncFunctionDef = visit_FunctionDef
+
+                def visit_Expr(self, e: ast.Expr, fi=fi):  # noqa: N802
+                    nonlocal count
+                    c = e.value
+                    if isinstance(c, ast.Call) and isinstance(c.func, ast.Attribute) and c.func.attr == "pop" and len(c.args) == 2 and not c.keywords and _is_simple(c.func.value) and _is_simple(c.args[0]):
+                        t = prog.expr_type(fi, c.func.value)
+                        if t is not None and t.name in ("builtins.dict", "collections.OrderedDict"):
+                            count += 1
+                            return ast.copy_location(ast.Delete(targets=[ast.Subscript(value=c.func.value, slice=c.args[0], ctx=ast.Del())]), e)
+                    return e
+
+            P().visit(fi.node)
+            ast.fix_missing_locations(fi.node)
+        if count:
+            log.append(f"{mod.name}: {count} conversion(s) to the type the value already has dropped / statement-level mapping.pop(key, default) read as del")
     return log
 
